@@ -40,3 +40,28 @@ func TestBenchC22(t *testing.T) {
 	}
 	t.Log("dump", time.Since(t0)/100)
 }
+
+func TestC20Smoke(t *testing.T) {
+	for _, k := range c20Kinds() {
+		for _, vm := range both {
+			th, err := c20Thresholds(k, vm)
+			if err != nil {
+				t.Fatal(err)
+			}
+			t.Logf("%s %s thresholds %+v", k, engName(vm), th)
+			root := &c20Root{K: k, VM: vm, Start: 5, Th: th, Bulk: 60}
+			st, err := c20InitState(root)
+			if err != nil {
+				t.Fatal(err)
+			}
+			for _, op := range c20Ops(k) {
+				t0 := time.Now()
+				_, o := c20Step(st, nil, op, true)
+				if o.Harness || o.Sig != "" {
+					t.Errorf("%s %s %s: %s %s", k, engName(vm), op, o.Sig, short(o.Detail, 700))
+				}
+				_ = t0
+			}
+		}
+	}
+}
